@@ -117,7 +117,7 @@ func runC19(c *Ctx) {
 	if err != nil {
 		panic(err)
 	}
-	cl.SetRootsProvider(fixedRoots{[]mcp.Root{{URI: "file:///r", Name: "r"}}})
+	cl.SetRootsProvider(slowRoots{s: s, roots: []mcp.Root{{URI: "file:///r", Name: "r"}}})
 	opCtx := func(op string) (context.Context, context.CancelFunc) {
 		return context.WithTimeout(context.WithValue(context.Background(), c19Key{}, op), 3*time.Minute)
 	}
@@ -135,6 +135,27 @@ func runC19(c *Ctx) {
 		return true
 	}
 	// ---- history that makes the client emit every request kind ----
+	// in some runs a gateway in front of the server answers the first initialize with a bare 503
+	// (no session header); the application then initializes again
+	flaky := kind == "streamable" && failAt != "init" && t.Bool(25)
+	c.SetPlan("first_initialize_gets_503", flaky)
+	if flaky {
+		armed := true
+		s.Net.Script = func(conn *sim.Conn) *sim.Outcome {
+			if armed && conn.Method == "POST" && strings.Contains(string(conn.ReqBody), `"method":"initialize"`) {
+				armed = false
+				s.Fault("c19.initialize-503")
+				return &sim.Outcome{Kind: "status", Status: 503, Body: "upstream unavailable"}
+			}
+			return nil
+		}
+		fctx, fcancel := opCtx("init")
+		if _, err := cl.Initialize(fctx, &mcp.InitializeRequest{}); err == nil {
+			s.Violate("C19|refused-initialize-reported-as-success|"+kind, "the initialize POST was answered 503, Initialize returned nil")
+		}
+		fcancel()
+		s.Net.Script = nil
+	}
 	ctx, cancel := opCtx("init")
 	n0 := connsBefore()
 	_, ierr := cl.Initialize(ctx, &mcp.InitializeRequest{})
@@ -237,6 +258,25 @@ func runC19(c *Ctx) {
 		}
 	}
 	s.Settle(10 * time.Millisecond)
+	if kind == "legacy-sse" && failAt == "" && t.Bool(30) {
+		// the application closes the client while a call (and the answer to the server's roots/list it
+		// triggers) is in flight: whatever still goes out is judged like everything else
+		wait := t.Draw(40)
+		c.SetPlan("close_during_call_after_steps", wait)
+		call := s.Go("last-call", func() {
+			ctx, cancel := opCtx("call")
+			defer cancel()
+			cl.CallTool(ctx, callToolReq("roots", map[string]interface{}{"nonce": "last"}))
+		})
+		closer := s.Go("closer", func() {
+			for i := 0; i < wait; i++ {
+				s.Yield("closer#wait")
+			}
+			cl.Close()
+		})
+		s.WaitTasks(5*time.Minute, call, closer)
+		s.Probe("c19.close_during_call")
+	}
 	cl.Close()
 	s.Settle(10 * time.Millisecond)
 
@@ -311,4 +351,18 @@ func runC19(c *Ctx) {
 		s.Probe(fmt.Sprintf("c19.kind.%s.%s", kind, k))
 		_ = n
 	}
+}
+
+// slowRoots is a roots provider that takes a few scheduler steps (the answer to a server-issued
+// roots/list is built while other things happen).
+type slowRoots struct {
+	s     *sim.Sim
+	roots []mcp.Root
+}
+
+func (f slowRoots) GetRoots() []mcp.Root {
+	for i := 0; i < 3; i++ {
+		f.s.Yield("roots-provider")
+	}
+	return f.roots
 }
